@@ -180,6 +180,9 @@ def run_sim(rec, spec, rng, i):
                 mc.exchange_atoms = species
                 metropolis.intend(ctx, species_mass=float(species.get_masses().sum()), species_symbols=list(species.symbols))
                 rec.count("parameter_changes")
+        if ens.startswith("iso") and metropolis.degenerate_cell(mc.context):
+            rec.count("simulations_ended_cell_degenerated")  # random walk of the cell left the domain: start a new simulation
+            break
         try:
             mc.run(1)
         except Exception as ex:  # noqa: BLE001
